@@ -4,6 +4,7 @@ package checks
 // cache-wrapped stores, compared step by step with an overlay-of-maps model.
 
 import (
+	"io"
 	"bytes"
 	"fmt"
 	"runtime"
@@ -33,6 +34,12 @@ func (o c15op) String() string {
 		return fmt.Sprintf("%s(%q)", o.kind, o.key)
 	case "set":
 		return fmt.Sprintf("set(%q,%q)", o.key, o.val)
+	case "pset":
+		return fmt.Sprintf("parent.set(%q,%q)", o.key, o.val)
+	case "pdel":
+		return fmt.Sprintf("parent.del(%q)", o.key)
+	case "pusht":
+		return "push(traced)"
 	case "iter", "open":
 		d := "asc"
 		if !o.asc {
@@ -71,6 +78,10 @@ func c15alphabet(tier string) []c15op {
 		ops = append(ops, c15op{kind: "iter", start: r[0], end: r[1], asc: true}, c15op{kind: "iter", start: r[0], end: r[1], asc: false})
 	}
 	ops = append(ops, c15op{kind: "write"}, c15op{kind: "push"}, c15op{kind: "popw"}, c15op{kind: "popd"})
+	// a nested wrapper made with CacheWrapWithTrace (what a traced cache multistore does), and writes
+	// that reach the parent from elsewhere while the only wrapper is clean (after Write the wrapper
+	// shows the parent as it is)
+	ops = append(ops, c15op{kind: "pusht"}, c15op{kind: "pset", key: kB, val: []byte("z")}, c15op{kind: "pdel", key: kA})
 	ops = append(ops,
 		c15op{kind: "open", slot: 0, asc: true}, c15op{kind: "open", slot: 0, asc: false},
 		c15op{kind: "open", slot: 1, start: kA0, end: kC, asc: true}, c15op{kind: "open", slot: 1, start: kA0, end: kC, asc: false},
@@ -102,6 +113,7 @@ type c15machine struct {
 	levels     []level
 	iters      [2]*openIter
 	err        string
+	touched    bool // the bottom wrapper has been used since its creation / last Write
 }
 
 func newC15machine(parentKind string) *c15machine {
@@ -166,16 +178,21 @@ func (m *c15machine) noteMutation(key []byte, v []byte) {
 // enabled says whether op respects the usage contracts (see DESIGN.md C15).
 func (m *c15machine) enabled(o c15op) bool {
 	switch o.kind {
-	case "write", "push", "popw", "popd":
+	case "write", "push", "pusht", "popw", "popd":
 		if m.anyOpen() {
 			return false
 		}
 		if (o.kind == "popw" || o.kind == "popd") && len(m.stack) < 2 {
 			return false
 		}
-		if o.kind == "push" && len(m.stack) >= 3 {
+		if (o.kind == "push" || o.kind == "pusht") && len(m.stack) >= 3 {
 			return false
 		}
+	case "pset", "pdel":
+		// somebody else writes to the parent: the wrapper caches what it has read, so this is only
+		// legitimate while its cache is empty - nothing was done through it since it was created or
+		// last written
+		return !m.anyOpen() && len(m.stack) == 1 && !m.touched
 	case "open":
 		return m.iters[o.slot] == nil
 	case "step", "close":
@@ -192,6 +209,17 @@ func (m *c15machine) apply(o c15op) {
 	}()
 	t := m.top()
 	st := m.stack[t]
+	switch o.kind {
+	case "pset", "pdel", "close", "popd":
+	case "write":
+		if t == 0 {
+			m.touched = false
+		} else {
+			m.touched = true
+		}
+	default:
+		m.touched = true
+	}
 	switch o.kind {
 	case "get":
 		got := st.Get(o.key)
@@ -242,6 +270,16 @@ func (m *c15machine) apply(o c15op) {
 		child := st.CacheWrap().(stypes.CacheKVStore)
 		m.stack = append(m.stack, child)
 		m.levels = append(m.levels, level{})
+	case "pusht":
+		child := st.CacheWrapWithTrace(io.Discard, nil).(stypes.CacheKVStore)
+		m.stack = append(m.stack, child)
+		m.levels = append(m.levels, level{})
+	case "pset":
+		m.base.Set(o.key, append([]byte{}, o.val...))
+		m.baseModel[string(o.key)] = append([]byte{}, o.val...)
+	case "pdel":
+		m.base.Delete(o.key)
+		delete(m.baseModel, string(o.key))
 	case "popw":
 		st.Write()
 		m.flush(t)
@@ -518,12 +556,16 @@ func c15prefixEnabled(alpha []c15op, prog []int) bool {
 	for _, i := range prog {
 		o := alpha[i]
 		switch o.kind {
-		case "write", "push", "popw", "popd":
+		case "pset", "pdel":
+			if open[0] || open[1] || depth != 1 {
+				return false
+			}
+		case "write", "push", "pusht", "popw", "popd":
 			if open[0] || open[1] {
 				return false
 			}
 			switch o.kind {
-			case "push":
+			case "push", "pusht":
 				if depth >= 3 {
 					return false
 				}
